@@ -291,7 +291,13 @@ def run(tier, seed):
                 name, r['n_mismatch'], c[1], e[:120], g[:120]))
         for case, why in r['oracle_fail'][:6]:
             findings.add(case[0], repr(case[1]), why)
+    # how much of the traversal and quoting code do the inputs execute (a measurement, not a verdict)
+    coverage_lines = lib.modelled_code_coverage([('css_parser', 'getUrls'), ('css_parser', 'replaceUrls'), ('css_parser.helper', 'uri'),
+                                                 ('css_parser.helper', 'string'), ('css_parser.helper', 'urivalue'), ('css_parser.helper', 'stringvalue')],
+                                                [lambda c=c: oracle(c) for c in trav[::max(1, len(trav) // 300)]] +
+                                                [lambda c=c: oracle(c) for c in urls[::max(1, len(urls) // 500)]], limit=900)
     coverage = {
+        'modelled_code_line_coverage': coverage_lines,
         'evaluations': resT['n'] + resU['n'],
         'distinct_nontrivial': len(set(trav)) + len(set(urls)),
         'rule': 'traversal: generated rule trees (imports, style rules, @font-face, @page with 0-2 margin rules, @media nested '
